@@ -47,6 +47,8 @@ def mesh_configs(quick):
     ]
     # a non-convex hole whose vertex mean lies outside it (the mesher needs a point INSIDE each hole)
     c += [dict(kind="Lhole", mel=0.9, smooth=0)]
+    # contact pads that reach well into the film (centres of interior edges lie inside the terminal polygons)
+    c += [dict(kind="bar_thick", mel=0.5, smooth=0)]
     # geometry away from the origin; meshes made without refinement (outline point density only), with min_points only
     c += [dict(kind="bar_hole", mel=0.0, smooth=0, offset=(20.0, 12.0)), dict(kind="ring", mel=1.0, smooth=2, offset=(0.4, -0.3)),
           dict(kind="bar", mel=None, smooth=0, min_points=150, offset=(-7.0, 3.0))]
